@@ -10,17 +10,26 @@ pub struct TcpServer {
 
 impl TcpServer {
     pub fn start(dbs: Arc<Databases>) -> TcpServer {
-        let port = crate::http::free_port();
-        let addr = format!("127.0.0.1:{}", port);
-        std::thread::Builder::new().name(format!("tcp-{}", port)).spawn(move || nundb::network::tcp_ops::start_tcp_client(dbs, &addr)).unwrap();
-        for _ in 0..2000 {
-            if let Ok(s) = TcpStream::connect(("127.0.0.1", port)) {
-                drop(s);
-                return TcpServer { port };
+        for _attempt in 0..8 {
+            let port = crate::http::free_port();
+            let addr = format!("127.0.0.1:{}", port);
+            let d = dbs.clone();
+            let h = std::thread::Builder::new().name(format!("tcp-{}", port)).spawn(move || nundb::network::tcp_ops::start_tcp_client(d, &addr)).unwrap();
+            for _ in 0..2000 {
+                if h.is_finished() {
+                    break;
+                }
+                if let Ok(s) = TcpStream::connect(("127.0.0.1", port)) {
+                    drop(s);
+                    if !h.is_finished() {
+                        return TcpServer { port };
+                    }
+                }
+                std::thread::sleep(std::time::Duration::from_millis(2));
             }
-            std::thread::sleep(std::time::Duration::from_millis(2));
         }
-        panic!("tcp server did not start");
+        eprintln!("machinery: the tcp server could not be started on any port");
+        std::process::exit(2);
     }
 
     pub fn connect(&self) -> TcpConn {
